@@ -36,7 +36,7 @@ class LeanOracle:
 
     def ln2(self, P: int):
         if P not in self._ln2:
-            out = lean_driver([f"ln2\t{P}\t{P + 8}"])[0]
+            out = lean_driver([f"ln2\t{P}\t{P + 8}\t{max(30, P // 4)}"])[0]
             if not out.startswith("ok "):
                 raise RuntimeError(f"ln2 certificate failed at P={P}: {out}")
             _, a, b = out.split(" ")
@@ -96,8 +96,12 @@ def eval_adaptive(oracle: LeanOracle, cases, need, kind="decay", P0=192, Pmax=60
     results = [None] * len(cases)
     todo = list(range(len(cases)))
     P = P0
+    import os, time as _t
     while todo and P <= Pmax:
+        _t0 = _t.time()
         outs = oracle.eval_batch([cases[i] for i in todo], kind=kind, P=P)
+        if os.environ.get("VERIF_DEBUG"):
+            print(f"[oracle] P={P} cases={len(todo)} {_t.time() - _t0:.1f}s", flush=True)
         nxt = []
         for i, o in zip(todo, outs):
             results[i] = o
